@@ -1,5 +1,6 @@
 import Driver.Util
 import ZvbiModel.Net.Model
+import ZvbiModel.Net.XdsStr
 /-!
 # Line-protocol driver of the `net` model (C13)
 
@@ -12,6 +13,8 @@ chsw | cached <pgno> | state
 note <words>                           scenario annotation read by the oracle (no effect, `ok`)
 lookup <1|2|3> <cni>                   station_lookup (1 = VPS, 2 = 8/30-1, 3 = 8/30-2)
 tbl <i>                                row i of vbi_cni_table
+strfu <dst bytes> <src bytes>          xds_strfu on a raw destination array: `ok <neq != 0> <dst after>`, `rej oob` = would overrun
+layout                                 sizeof name / call / XDS buffer, fields and padding of vbi_program_id
 ```
 -/
 namespace Zvbi.Driver.Net
@@ -89,7 +92,8 @@ def parseOp (ws : List String) : Option Op :=
   | _ => none
 
 def knownOps : List String :=
-  ["mask", "frame", "vps", "p830", "wss", "xdsname", "xdscall", "page", "chsw", "cached", "state", "note", "lookup", "tbl"]
+  ["mask", "frame", "vps", "p830", "wss", "xdsname", "xdscall", "page", "chsw", "cached", "state", "note", "lookup", "tbl",
+   "strfu", "layout"]
 
 def step (s : State) (ws : List String) : State × String :=
   match ws with
@@ -108,6 +112,14 @@ def step (s : State) (ws : List String) : State × String :=
       | some e => (s, s!"ok {e.id} {toHex e.name} {e.cni1} {e.cni2} {e.cni3} {e.cni4}")
       | none => (s, "ok end"))
     | none => (s, "rej parse")
+  | ["strfu", d, src] =>
+    match parseHex d, parseHex src with
+    | some d, some src =>
+      (match strfu d src with
+       | some (d', neq) => (s, s!"ok {if neq != 0 then 1 else 0} {toHex d'}")
+       | none => (s, "rej oob"))
+    | _, _ => (s, "rej parse")
+  | ["layout"] => (s, layoutLine)
   | w :: _ =>
     if !knownOps.contains w then (s, "rej op") else
     match parseOp ws with
